@@ -34,7 +34,10 @@ func c08Run(c scriptCase) (fs []rep.Finding, lr lockstepResult) {
 	if lr.ref != nil && lr.ref.TooBig {
 		return nil, lr
 	}
-	for _, withDbg := range []bool{false, true} {
+	for form := 0; form < 3; form++ {
+		// form 0: WithTx; form 1: WithTx and a debugger; form 2: WithTx for a transaction whose
+		// checked input carries no unlocking script yet, the scripts handed over through WithScripts
+		withDbg := form == 1
 		rt, amount := c.ctx()
 		tx := toLib(rt)
 		tx.Inputs[0].PreviousTxScript = nil
@@ -43,13 +46,21 @@ func c08Run(c scriptCase) (fs []rep.Finding, lr lockstepResult) {
 		unlockBuf := append([]byte(nil), c.Unlock...)
 		tx.Inputs[0].UnlockingScript = libScriptNoCopy(unlockBuf)
 		prev := &bt.Output{Satoshis: amount, LockingScript: libScriptNoCopy(lockBuf)}
-		before := tx.Bytes()
 		opts := []interpreter.ExecutionOptionFunc{interpreter.WithTx(tx, 0, prev), interpreter.WithFlags(scriptflag.Flag(c.Flags))}
 		if withDbg {
 			opts = append(opts, interpreter.WithDebugger(&recorder{}))
 		}
-		_ = interpreter.NewEngine().Execute(opts...)
 		tag := fmt.Sprintf("debugger=%v", withDbg)
+		if form == 2 {
+			tx.Inputs[0].UnlockingScript = nil
+			opts = append(opts, interpreter.WithScripts(libScriptNoCopy(lockBuf), libScriptNoCopy(unlockBuf)))
+			tag = "scripts-given-separately"
+		}
+		before := tx.Bytes()
+		_ = interpreter.NewEngine().Execute(opts...)
+		if form == 2 && tx.Inputs[0].UnlockingScript != nil {
+			fs = append(fs, rep.F("transaction-serialisation-changed|"+tag, "Execute stored an unlocking script in the caller's transaction"))
+		}
 		if !bytes.Equal(lockBuf, c.Lock) {
 			fs = append(fs, rep.F("locking-script-bytes-changed|"+tag, fmt.Sprintf("the caller's locking script changed from %x to %x", []byte(c.Lock), lockBuf)))
 		}
@@ -109,7 +120,7 @@ func provenances() []provenance {
 
 func init() {
 	p := register(&Prop{ID: "C08", Level: "model_checking",
-		Rule: "explicit-state exploration of the real interpreter with value-semantics lockstep: (A) provenance x transformer grid: 19 ways of obtaining two stack items backed by the same bytes (direct push from the caller's script, DUP, 2DUP, 3DUP, OVER, 2OVER, PICK, TUCK, IFDUP, SPLIT left/right/at 0, alt-stack round trip, SWAP/ROT/2SWAP/ROLL of a copy, twin parked on the alt stack, CAT with empty) x EVERY opcode byte 0x4f..0xff as transformer x extra operand lists of length 0..2 over 4/6 edge operands x 6 (quick) / 16 (thorough) values V x both eras; (B) the mixed-alphabet program search of C05 (all programs to depth 3/4 from 79 seed stacks); (C) signature runs: valid and invalid P2PKH, P2PK and 2-of-3 multisig spends with real signatures, FORKID and legacy, both eras, with OP_CODESEPARATOR and signature-in-script variants. Oracles on every execution: every item of both stacks equals the value-semantics reference after every instruction; the caller's locking and unlocking script buffers are byte-identical afterwards; tx.Bytes() is unchanged and the checked input records nothing but the spent output; with and without a debugger attached. states = distinct snapshots, transitions = instructions compared",
+		Rule: "explicit-state exploration of the real interpreter with value-semantics lockstep: (A) provenance x transformer grid: 19 ways of obtaining two stack items backed by the same bytes (direct push from the caller's script, DUP, 2DUP, 3DUP, OVER, 2OVER, PICK, TUCK, IFDUP, SPLIT left/right/at 0, alt-stack round trip, SWAP/ROT/2SWAP/ROLL of a copy, twin parked on the alt stack, CAT with empty) x EVERY opcode byte 0x4f..0xff as transformer x extra operand lists of length 0..2 over 4/6 edge operands x 6 (quick) / 16 (thorough) values V x both eras; (B) the mixed-alphabet program search of C05 (all programs to depth 3/4 from 79 seed stacks); (C) signature runs: valid and invalid P2PKH, P2PK and 2-of-3 multisig spends with real signatures, FORKID and legacy, both eras, with OP_CODESEPARATOR and signature-in-script variants. Oracles on every execution: every item of both stacks equals the value-semantics reference after every instruction; the caller's locking and unlocking script buffers are byte-identical afterwards; tx.Bytes() is unchanged and the checked input records nothing but the spent output; with and without a debugger attached, and with the scripts handed over through WithScripts for a transaction whose checked input has no unlocking script yet. states = distinct snapshots, transitions = instructions compared",
 	})
 	NewSpace(p, "exec", c08Check)
 	p.Run = func(r *rep.Run, thorough bool) {
